@@ -46,7 +46,7 @@ def sigs(max_ops, max_rank, idx, min_ops=0):
 
 
 SIZES = {'mixed': {'i': 2, 'j': 3, 'k': 2, 'l': 3}, 'uniform': {'i': 2, 'j': 2, 'k': 2, 'l': 2},
-         'one': {'i': 1, 'j': 3, 'k': 2, 'l': 3}, 'zero': {'i': 0, 'j': 3, 'k': 2, 'l': 3}, 'four': {'i': 4, 'j': 2, 'k': 4, 'l': 2}}
+         'uniform3': {'i': 3, 'j': 3, 'k': 3, 'l': 3}, 'one': {'i': 1, 'j': 3, 'k': 2, 'l': 3}, 'zero': {'i': 0, 'j': 3, 'k': 2, 'l': 3}, 'four': {'i': 4, 'j': 2, 'k': 4, 'l': 2}}
 
 
 def gen_cases(tier, seed):
@@ -57,6 +57,10 @@ def gen_cases(tier, seed):
         if any('i' in o for o in ops):
             yield ('E', ops, out, 'one', 'few')
             yield ('E', ops, out, 'zero', 'few')
+    # (A') equal operands passed as the very same object (or its transpose), sizes 3 so that offset blocks exist
+    for ops, out in sigs(2, 2, 'ijk', min_ops=2):
+        if len(set(map(len, ops))) == 1:
+            yield ('E', ops, out, 'uniform3', 'shared3')
     # (B) 3 operands
     for ops, out in sigs(3, 1 if tier == 'quick' else 2, 'ijk', min_ops=3):
         yield ('E', ops, out, 'mixed', 'few')
@@ -153,6 +157,8 @@ def patterns_for(shape, which):
                 out.append(('split-shared', split_shared))
     if which == 'all':
         return out
+    if which == 'shared3':
+        return [x for x in out if x[0] in ('dense', 'offset', 'onehot0', 'diag', 'permuted')]
     if which == 'split':
         return [x for x in out if x[0] in ('dense', 'split', 'split-shared', 'stride0-all')]
     if which == 'min':
@@ -244,7 +250,7 @@ def equation_case(case, r):
     shapes = [tuple(sizes[c] for c in o) for o in ops]
     lists = [patterns_for(s, which) for s in shapes]
     for combo in itertools.product(*[[x[0] for x in l] for l in lists]):
-        for dev in ((False, True, 'shared') if which in ('all', 'few') else (False,)):
+        for dev in ((False, True, 'shared') if which in ('all', 'few') else (('shared',) if which == 'shared3' else (False,))):
             one_combo(ops, out, sz, combo, dev, r)
 
 
@@ -275,12 +281,23 @@ def one_combo(ops, out, sz, names, dev, r):
                 ts[-1] = PatternedTensor(p, t1.paxes, t1.vaxes, t1.default)
         if dev == 'shared':
             # the very same PatternedTensor object (or a flattened / transposed view sharing its axes) for equal operands
+            can_share = any((shapes[j] == shapes[k] and names[j] == names[k]) or
+                            (len(shapes[j]) == 2 and shapes[k] == tuple(reversed(shapes[j])) and names[j] == names[k] == 'dense')
+                            for k in range(1, len(ts)) for j in range(k))
+            if not can_share:
+                return
             for k in range(1, len(ts)):
                 for j in range(k):
                     if shapes[j] == shapes[k] and names[j] == names[k]:
                         ts[k] = ts[j]
                     elif len(shapes[j]) == 2 and shapes[k] == tuple(reversed(shapes[j])) and names[j] == names[k] == 'dense':
                         ts[k] = ts[j].T
+            # views without a bare physical axis among their virtual axes
+            if len(ts) == 2 and names[0] == names[1] == 'dense' and len(shapes[0]) == 2 and shapes[0] == shapes[1] and shapes[0][0] == shapes[0][1]:
+                n0 = shapes[0][0]
+                base2 = ts[0]
+                ts[0] = base2.flatten().reshape(n0, n0) if False else base2
+                ts[1] = base2.T
         dense = [t.to_dense() for t in ts]
     except Exception as e:
         r.exc(e, 'build', sub, sub)
